@@ -5,6 +5,7 @@ import FteikVerif.Model.Fteik3D
 import FteikVerif.Model.Interp
 import FteikVerif.Model.Ray
 import FteikVerif.Model.Mesh
+import FteikVerif.Model.Api
 /-!
 # Line-protocol driver (Tie A)
 
@@ -68,6 +69,12 @@ def popGrid3 (nz nx ny : Nat) : StateT Toks (Except String) (Grid3 Float) := do
   pure g
 
 def outFs (a : List Float) : String := " ".intercalate (a.map fbits)
+
+def outGrid3 (g : Grid3 Float) : String :=
+  outFs (g.toList.flatMap fun p => p.toList.flatMap fun r => r.toList)
+
+def outGrid3T (g : Grid3 (Float × Float × Float)) : String :=
+  outFs (g.toList.flatMap fun p => p.toList.flatMap fun r => r.toList.flatMap fun x => [x.1, x.2.1, x.2.2])
 
 def cmdFteik3d : StateT Toks (Except String) String := do
   let nzc ← popNat; let nxc ← popNat; let nyc ← popNat; let nsweep ← popNat; let grad ← popNat
@@ -174,6 +181,34 @@ def cmdMesh3d : StateT Toks (Except String) String := do
   let ints := fun (l : List Nat) => " ".intercalate (l.map toString)
   pure s!"ok {npts} {ncell} {outFs pts} {ints pnode} {ints cells} {ints ccell}"
 
+/-- `Eikonal2D(grid, gridsize, origin).solve(source, nsweep, return_gradient)` -/
+def cmdEik2d : StateT Toks (Except String) String := do
+  let nzc ← popNat; let nxc ← popNat; let nsweep ← popNat; let grad ← popNat
+  let dz ← popF; let dx ← popF; let oz ← popF; let ox ← popF; let zs ← popF; let xs ← popF
+  let v ← popGrid2 nzc nxc
+  let e : Eik2 Float := ⟨v, nzc, nxc, dz, dx, oz, ox⟩
+  match e.solve big (zs, xs) nsweep (grad != 0) with
+  | .error er => pure s!"err {er.code}"
+  | .ok t =>
+    let g := match t.gradient with
+      | some g => outGrid2P g
+      | none => ""
+    pure s!"ok {fbits t.vzero} {outGrid2 t.grid} {g}"
+
+def cmdEik3d : StateT Toks (Except String) String := do
+  let nzc ← popNat; let nxc ← popNat; let nyc ← popNat; let nsweep ← popNat; let grad ← popNat
+  let dz ← popF; let dx ← popF; let dy ← popF; let oz ← popF; let ox ← popF; let oy ← popF
+  let zs ← popF; let xs ← popF; let ys ← popF
+  let v ← popGrid3 nzc nxc nyc
+  let e : Eik3 Float := ⟨v, nzc, nxc, nyc, dz, dx, dy, oz, ox, oy⟩
+  match e.solve big (zs, xs, ys) nsweep (grad != 0) with
+  | .error er => pure s!"err {er.code}"
+  | .ok t =>
+    let g := match t.gradient with
+      | some g => outGrid3T g
+      | none => ""
+    pure s!"ok {fbits t.vzero} {outGrid3 t.grid} {g}"
+
 def handle (line : String) : String :=
   let toks := (line.splitOn " ").filter (· ≠ "")
   match toks with
@@ -194,6 +229,8 @@ def handle (line : String) : String :=
     | "ray3d" => run cmdRay3d
     | "shrink" => run cmdShrink
     | "mesh2d" => run cmdMesh2d
+    | "eik2d" => run cmdEik2d
+    | "eik3d" => run cmdEik3d
     | "mesh3d" => run cmdMesh3d
     | _ => s!"bad command {c}"
 
